@@ -33,6 +33,9 @@ pub struct Cfg {
     pub faults: bool,
     /// Create markets forming swap paths (4 tokens, 4 markets) instead of the small world.
     pub big_world: bool,
+    /// C40: decode every market with the SDK model and replay executions on it.
+    #[serde(default)]
+    pub sdk_diff: bool,
 }
 
 #[derive(Clone, Copy, Debug, Serialize, Deserialize, PartialEq, Eq)]
@@ -91,6 +94,8 @@ pub struct Act {
     pub order_kind: Option<OrderKind>,
     pub position: Option<Pubkey>,
     pub executed_once: bool,
+    /// (market, long amount, short amount) of a deposit without swap paths / (market, amount) of a withdrawal.
+    pub plain: Option<(usize, u64, u64)>,
 }
 
 pub struct Exchange;
@@ -116,6 +121,7 @@ impl Scenario for Exchange {
             twins: focus == "C19" || c.chance(1, 10),
             faults: c.chance(2, 3),
             big_world: focus == "C44" || c.chance(1, 2),
+            sdk_diff: focus == "C40" || c.chance(1, 10),
         };
         let n_markets = if cfg.big_world { 5 } else { 3 };
         let n_tokens = if cfg.big_world { 4 } else { 3 };
@@ -326,6 +332,7 @@ pub struct Sim {
     pub stranger: Pubkey,
     pub positions: Vec<Pubkey>,
     pub dusted: bool,
+    pub sdk_diff: bool,
 }
 
 fn nonce_bytes(n: u64) -> [u8; 32] {
@@ -374,7 +381,7 @@ impl Sim {
             let o = w.process(spl_token::instruction::mint_to(&spl_token::ID, &t.mint, &ata(&stranger, &t.mint), &d.admin, &[], 1_000_000_000_000_000).unwrap());
             assert!(o.ok);
         }
-        let mut s = Sim { w, d, acts: vec![], nonce: 0, twins: cfg.twins, stranger, positions: vec![], dusted: false };
+        let mut s = Sim { w, d, acts: vec![], nonce: 0, twins: cfg.twins, stranger, positions: vec![], dusted: false, sdk_diff: cfg.sdk_diff };
         s.configure(cfg.params);
         s
     }
@@ -523,6 +530,15 @@ impl Sim {
         if out.ok {
             self.check_solvency(obs);
             self.check_lifecycle(obs);
+            if self.sdk_diff {
+                for mi in 0..self.d.markets.len() {
+                    let n = crate::c40::check_decoding(&self.w, &self.d, mi, obs);
+                    obs.probe_n("c40_fields_compared", n);
+                    obs.probe_n("tv_disagreements_checked", n);
+                    obs.probe("c40_accounts_decoded_twice");
+                    obs.probe("tv_programs");
+                }
+            }
         }
     }
 
@@ -629,7 +645,7 @@ impl Sim {
                         escrowed.push((stm, *short));
                     }
                 }
-                self.acts.push(Act { kind: Kind::Deposit, key, owner: *user, st: if out.ok { St::Pending } else { St::Closed }, escrows, escrowed, swap: None, order_kind: None, position: None, executed_once: false });
+                self.acts.push(Act { kind: Kind::Deposit, key, owner: *user, st: if out.ok { St::Pending } else { St::Closed }, escrows, escrowed, swap: None, order_kind: None, position: None, executed_once: false, plain: (args.long_path.is_empty() && args.short_path.is_empty() && args.initial_long_token.is_none() && args.initial_short_token.is_none()).then_some((market, *long, *short)) });
                 self.after_tx(&out, obs);
             }
             Step::Withdraw { user, market, bps, min_long, min_short, long_path, short_path, lt, st } => {
@@ -663,7 +679,7 @@ impl Sim {
                 if stm != ltm {
                     escrows.push((stm, ata(&key, &stm)));
                 }
-                self.acts.push(Act { kind: Kind::Withdrawal, key, owner: *user, st: if out.ok { St::Pending } else { St::Closed }, escrows, escrowed: vec![(mk.market_token, amount)], swap: None, order_kind: None, position: None, executed_once: false });
+                self.acts.push(Act { kind: Kind::Withdrawal, key, owner: *user, st: if out.ok { St::Pending } else { St::Closed }, escrows, escrowed: vec![(mk.market_token, amount)], swap: None, order_kind: None, position: None, executed_once: false, plain: (args.long_path.is_empty() && args.short_path.is_empty() && args.final_long_token.is_none() && args.final_short_token.is_none()).then_some((market, amount, 0)) });
                 self.after_tx(&out, obs);
             }
             Step::Shift { user, from, to, bps, min_to } => {
@@ -682,7 +698,7 @@ impl Sim {
                 if tm.market_token != fm.market_token {
                     escrows.push((tm.market_token, ata(&key, &tm.market_token)));
                 }
-                self.acts.push(Act { kind: Kind::Shift, key, owner: *user, st: if out.ok { St::Pending } else { St::Closed }, escrows, escrowed: vec![(fm.market_token, amount)], swap: None, order_kind: None, position: None, executed_once: false });
+                self.acts.push(Act { kind: Kind::Shift, key, owner: *user, st: if out.ok { St::Pending } else { St::Closed }, escrows, escrowed: vec![(fm.market_token, amount)], swap: None, order_kind: None, position: None, executed_once: false, plain: None });
                 self.after_tx(&out, obs);
             }
             Step::Order { user, market, kind, is_long, collat_long, collateral, size_usd, path, min_output, acceptable_cents, tin, tout } => {
@@ -767,6 +783,7 @@ impl Sim {
                     order_kind: Some(k),
                     position,
                     executed_once: false,
+                    plain: None,
                 });
                 self.after_tx(&out, obs);
             }
@@ -805,6 +822,17 @@ impl Sim {
                 let pre = self.w.clone();
                 let out = self.w.process(ix.clone());
                 obs.outcome("order_keeper", "update_fees_state", &out.class());
+                if out.ok && self.sdk_diff {
+                    let mi = *market % self.d.markets.len();
+                    if let Some(prices) = crate::c40::accepted_prices(&pre, &self.d, mi) {
+                        if let Some((_, n)) = crate::c40::replay_fees_update(&pre, &self.w, &self.d, mi, &prices, obs) {
+                            obs.probe_n("c40_fields_compared", n);
+                    obs.probe_n("tv_disagreements_checked", n);
+                            obs.probe("c40_replayed:update_fees_state");
+                            obs.probe("tv_programs");
+                        }
+                    }
+                }
                 if out.ok {
                     let keeper = self.d.keeper;
                     let stranger = self.stranger;
@@ -931,6 +959,38 @@ impl Sim {
             match now {
                 St::Completed => {
                     self.acts[i].executed_once = true;
+                    if self.sdk_diff {
+                        if let Some((mi, a, b)) = self.acts[i].plain {
+                            if let Some(prices) = crate::c40::accepted_prices(&pre, &self.d, mi) {
+                                match kind {
+                                    Kind::Deposit => {
+                                        let n = crate::c40::replay_deposit(&pre, &self.w, &self.d, mi, &prices, a, b, obs);
+                                        obs.probe_n("c40_fields_compared", n);
+                    obs.probe_n("tv_disagreements_checked", n);
+                                        obs.probe("c40_replayed:deposit");
+                                        obs.probe("tv_programs");
+                                    }
+                                    Kind::Withdrawal => {
+                                        let mk = self.d.markets[mi].clone();
+                                        let esc_after = self.escrow_balances(&self.acts[i]);
+                                        let delta = |mint: &Pubkey| -> u64 {
+                                            let b0 = esc_before.iter().find(|e| e.0 == *mint).map(|e| e.1).unwrap_or(0);
+                                            let b1 = esc_after.iter().find(|e| e.0 == *mint).map(|e| e.1).unwrap_or(0);
+                                            b1.saturating_sub(b0)
+                                        };
+                                        let gl = delta(&self.d.tokens[mk.long].mint);
+                                        let gs = if mk.long == mk.short { 0 } else { delta(&self.d.tokens[mk.short].mint) };
+                                        let n = crate::c40::replay_withdrawal(&pre, &self.w, &self.d, mi, &prices, a, gl, gs, obs);
+                                        obs.probe_n("c40_fields_compared", n);
+                    obs.probe_n("tv_disagreements_checked", n);
+                                        obs.probe("c40_replayed:withdrawal");
+                                        obs.probe("tv_programs");
+                                    }
+                                    _ => {}
+                                }
+                            }
+                        }
+                    }
                     if let Some((path, tin, tout)) = self.acts[i].swap.clone() {
                         self.check_swap_execution(i, &path, tin, tout, &out, &rec_before, &esc_before, obs);
                     }
